@@ -33,20 +33,20 @@ Lemma handle_COUNT ig v kw : handle ig s_COUNT v kw =
   match py_int v with Some n => Ok (set_count n kw) | None => Err EValue end.
 Proof. reflexivity. Qed.
 Lemma handle_FREQ ig v kw : handle ig s_FREQ v kw =
-  match freq_of v with Some f => Ok (set_freq f kw) | None => Err EValue end.
+  match freq_of v with Some f => Ok (set_freq f kw) | None => Err EKey end.
 Proof. reflexivity. Qed.
 Lemma handle_WKST ig v kw : handle ig s_WKST v kw =
-  match wday_of v with Some w => Ok (set_wkst w kw) | None => Err EValue end.
+  match wday_of v with Some w => Ok (set_wkst w kw) | None => Err EKey end.
 Proof. reflexivity. Qed.
 Lemma handle_UNTIL ig v kw : handle ig s_UNTIL v kw =
   match parse_date ig v with
-  | DOk d => Ok (set_until d kw) | DBad => Err EValue | DUn => Err EUnmodelled end.
+  | DOk d => Ok (set_until d kw) | DBad => Err EValue | DOv => Err EValue | DUn => Err EUnmodelled end.
 Proof. reflexivity. Qed.
 Lemma handle_BYDAY ig v kw : handle ig s_BYDAY v kw =
-  match wd_list v with Some l => Ok (set_byweekday l kw) | None => Err EValue end.
+  match wd_list v with Some l => Ok (set_byweekday l kw) | None => Err (wd_list_class v) end.
 Proof. reflexivity. Qed.
 Lemma handle_BYWEEKDAY ig v kw : handle ig s_BYWEEKDAY v kw =
-  match wd_list v with Some l => Ok (set_byweekday l kw) | None => Err EValue end.
+  match wd_list v with Some l => Ok (set_byweekday l kw) | None => Err (wd_list_class v) end.
 Proof. reflexivity. Qed.
 Lemma handle_list ig i v kw : 0 <= i <= 8 ->
   handle ig (nth (Z.to_nat i) list_names []) v kw =
